@@ -100,10 +100,11 @@ impl expr::Expr
 			
 			expr::Expr::Slice(_, _, left_expr, right_expr, _) =>
 			{
-				let left = left_expr.try_eval_usize()?.checked_add(1)?;
+				let left_index = left_expr.try_eval_usize()?;
+				let left = left_index.checked_add(1)?;
 				let right = right_expr.try_eval_usize()?;
 
-				if right > left
+				if right > left_index
 				{
 					return None;
 				}
